@@ -1039,6 +1039,13 @@ class Interp:
 
     def e_Compare(self, ctx, env, n):
         left = self.eval(ctx, env, n.left)
+        from . import builtins_ as BB
+        if (len(n.ops) == 1 and isinstance(n.ops[0], (ast.Is, ast.IsNot)) and isinstance(n.left, ast.Name) and isinstance(left, BB.OptVal)
+                and isinstance(n.comparators[0], ast.Constant) and n.comparators[0].value is None and n.left.id in env.vars):
+            # `x is None` on an optional value: decide it here and let x be None / the value from now on
+            none = ctx.branch(left.is_none)
+            env.vars[n.left.id] = None if none else left.val
+            return none if isinstance(n.ops[0], ast.Is) else not none
         result = None
         for op, rn in zip(n.ops, n.comparators):
             right = self.eval(ctx, env, rn)
